@@ -82,7 +82,7 @@ def encJob (j : Job) : List Nat :=
 def EencJob (e : EJob) : List Nat := [e.base, e.idx, e.left, b2n e.ok, b2n e.corrupt]
 def encOSt : OSt → Nat | .more => 0 | .ok => 1 | .err => 2
 def encOB (o : OB) : List Nat := [o.base, o.idx, encOSt o.st, b2n o.corrupt]
-def encUB (u : UB) : List Nat := [u.base, b2n u.corrupt, b2n u.dropped] ++ encUF u.f
+def encUB (u : UB) : List Nat := [u.base, b2n u.corrupt] ++ encUF u.f
 def encPhase : Phase → List Nat
   | .retr j k => 0 :: o2n k :: encJob j
   | .retr2 e => 1 :: EencJob e
@@ -143,7 +143,7 @@ def predOf (c : Cfg) (name : String) (s : State) : Bool :=
   | "badout" => badOut c s
   | "consviol" => consViol c s
   | "final" => terminated c s
-  | "partialviol" => decide (unordSize s > unordCapOf c + staleCount s)
+  | "partialviol" => decide (unordSize s > unordCapOf c)
   | _ => false
 
 structure Stats where
@@ -181,7 +181,7 @@ def monitor (c : Cfg) (seqOut : List (Nat × Nat)) (s : State) (st : Stats) : St
     consviol := inc (!s.failed && consViol c s) st.consviol,
     capviol := inc (capViol c s) st.capviol,
     overcap := inc (overCap c s) st.overcap,
-    unordpartialviol := inc (decide (unordSize s > unordCapOf c + staleCount s)) st.unordpartialviol,
+    unordpartialviol := inc (decide (unordSize s > unordCapOf c)) st.unordpartialviol,
     stale := inc (staleAttach c s) st.stale,
     taint := inc s.taint st.taint,
     leakfinal := inc (leakFinal c s) st.leakfinal,
